@@ -14,8 +14,12 @@ CFG = {
             "strings as internal messages, searched for in every response byte); live: 11 outcome classes (success, "
             "success with the handler's own x-request-id, HttpError, HttpError carrying x-request-id, custom error "
             "type, extractor failure on an HttpError and on a custom-error endpoint, 404, 405, version-policy "
-            "refusal, to_result failure) over 4 keep-alive connections to two servers; unique: all ids of the batch "
-            "as sorted 128-bit numbers. Non-trivial: every case; distinct by case content.",
+            "refusal, to_result failure) over 4 keep-alive connections to two servers; one request in three carries an "
+            "x-request-id REQUEST header of the client's (one UUID repeated on many requests of the same and of other "
+            "connections, an id the server handed out earlier, a client-chosen new UUID, upper-case / braced / urn / "
+            "unhyphenated spellings, non-UUID text, the empty value, the header twice): the response's id must differ "
+            "from every client-sent value in any spelling; unique: all ids of the batch as sorted 128-bit numbers, "
+            "strictly increasing, one per request and disjoint from every client-supplied UUID. Non-trivial: every case; distinct by case content.",
     "exhaustive_note": "the status group enumerates all 65536 u16 values for the six status functions; "
                        "for_client_error_with_status / for_client_error are run on all 100 client statuses and struct "
                        "literals on all 200 error statuses; messages, codes, headers and live traffic are sampled",
@@ -27,8 +31,9 @@ CFG = {
         "serde_json::to_string_pretty of HttpErrorResponseBody (library): the body is modelled as the record of its "
         "three members; the harness parses the real bytes with serde_json (as Value and as HttpErrorResponseBody)",
         "uuid::Uuid::new_v4 (library): premises of C13_ids_unique / C13_serve_ids: generated ids are pairwise "
-        "distinct and legal header values (fresh_distinct, fresh_legal); exercised by the live batch (UUID shape, "
-        "strict order of the sorted ids)",
+        "distinct and legal header values (fresh_distinct, fresh_legal), and a function of the call count alone "
+        "(fresh : nat -> str is not given the request: nothing the client sends can choose the id); exercised by the "
+        "live batch (UUID shape, strict order of the sorted ids, disjointness from client-sent x-request-id values)",
         "hyper/tokio/loopback TCP for the live slice; the raw-TCP client of the harness",
     ],
     "assumptions": [
